@@ -488,7 +488,8 @@ Lemma row_translation id aa st ok inc ws :
   In (id, aa, st) new_codes -> row_wf ws ->
   ropt (seq_get_translation_old true aa (concat ws) ok inc false) = aln_row_spec (ncbi_tbl id) false inc ws.
 Proof.
-  intros Hin Hw. unfold seq_get_translation_old. cbn [negb]. rewrite orb_true_r. cbn [bind].
+  intros Hin Hw. unfold seq_get_translation_old. cbn [negb]. rewrite orb_true_r. cbn [bind]. cbv zeta.
+  change (old_codon_d (codon_dict aa) ok inc) with (old_codon aa ok inc).
   rewrite (chunks3_concat ws Hw). unfold aln_row_spec.
   apply loop_generic. intros w Hx. unfold row_wf in Hw. rewrite Forall_forall in Hw.
   apply (old_codon_triplet id aa st ok inc w Hin (Hw w Hx)).
@@ -619,7 +620,7 @@ Qed.
 Lemma old_codon_ok_irrelevant aa inc w :
   has_gap w = false -> old_codon aa true inc w = old_codon aa false inc w.
 Proof.
-  intros Hg. unfold old_codon. cbv zeta. rewrite Hg. cbn [negb orb].
+  intros Hg. unfold old_codon, old_codon_d. cbv zeta. rewrite Hg. cbn [negb orb].
   set (R := if in_codon_alphabet (codon_dict aa) inc w then Ok [w] else _).
   assert (HR : forall l, R = Ok l -> forall u, In u l -> str_eqb u gap_word = true \/ has_gap u = false).
   { unfold R. intros l. destruct (in_codon_alphabet (codon_dict aa) inc w) eqn:Ew.
